@@ -199,6 +199,23 @@ def rule_pp(tk, F, defined=()):
     if stack: raise Drift("unbalanced preprocessor conditionals in body")
     return out
 
+def rule_parens(tk, F):
+    """PAREN: redundant parentheses around a whole `return` operand or a whole if/while condition are removed, so that the rewrite
+    patterns and the later rules see one spelling (`return (x);` == `return x;`, `if ((c))` == `if (c)`).  Pure syntax."""
+    out = []; i = 0; n = len(tk)
+    while i < n:
+        t = tk[i]
+        if t == 'return' and i + 1 < n and tk[i + 1] == '(':
+            c = match_close(tk, i + 1, '(', ')')
+            if c is not None and c + 1 < n and tk[c + 1] == ';' and c > i + 2:
+                out.append(t); out += tk[i + 2:c]; i = c + 1; F.hit('PAREN'); continue
+        if t in ('if', 'while') and i + 2 < n and tk[i + 1] == '(' and tk[i + 2] == '(':
+            c1 = match_close(tk, i + 1, '(', ')'); c2 = match_close(tk, i + 2, '(', ')')
+            if c1 is not None and c2 is not None and c2 + 1 == c1:
+                tk = tk[:i + 2] + tk[i + 3:c2] + tk[c2 + 1:]; n = len(tk); F.hit('PAREN'); continue
+        out.append(t); i += 1
+    return out
+
 def rule_drop(tk, F, names):
     tk2 = []; i = 0
     while i < len(tk):          # C++11 attributes [[...]]
